@@ -188,6 +188,12 @@ func (g *Gen) leafPara() *block {
 func (g *Gen) leafATX() *block {
 	lvl := 1 + g.pick(6)
 	l := g.inlineLine(true)
+	if g.chance(1, 6) {
+		// text that ends in something shaped like an attribute block: in CommonMark it is text like any other
+		a := []string{"{#id1}", "{.cls}", "{#a .b k=v}", "{k=\"v\"}", "{}"}[g.pick(5)]
+		l.md, l.html, l.plain = l.md+" "+a, l.html+" "+strings.ReplaceAll(a, "\"", "&quot;"), l.plain+" "+a
+		g.St.add("heading:attribute-lookalike")
+	}
 	s := strings.Repeat("#", lvl) + strings.Repeat(" ", 1+g.pick(3)) + l.md
 	switch g.pick(4) {
 	case 0:
@@ -211,6 +217,12 @@ func (g *Gen) leafSetext() *block {
 		ch = "-"
 	}
 	b := &block{k: kSetext, level: lvl}
+	if g.chance(1, 6) && !strings.HasSuffix(c.lines[len(c.lines)-1], "\\") && !strings.HasSuffix(c.lines[len(c.lines)-1], " ") {
+		a := []string{"{#id1}", "{.cls}", "{#a .b k=v}", "{}"}[g.pick(4)]
+		c.lines[len(c.lines)-1] += " " + a
+		c.html += " " + a
+		g.St.add("heading:attribute-lookalike")
+	}
 	for i, l := range c.lines {
 		ml := mline{s: l}
 		if i > 0 && g.chance(1, 4) {
